@@ -1,59 +1,82 @@
 ------------------------------- MODULE Fresh -------------------------------
-(* History independence of calls that hand out mutable results.               *)
+(* History independence of calls that hand out (mutable) results.             *)
 (*                                                                            *)
-(* Call(f, x) of a library function returns an object to the caller, who may  *)
-(* then mutate what it got (append to a list, set a key, add a property).     *)
-(* Ref: every call returns a FRESH object -- what a caller sees through the   *)
-(* handle h depends only on the input of the call that produced h and on the  *)
-(* mutations applied through h itself; in particular a later call with the    *)
-(* same input gives the pristine value again.                                 *)
+(* Call(f, x) of a library function, made while the process is in             *)
+(* configuration m (the active time zone provider), returns an object to the  *)
+(* caller, who may then mutate what it got (append to a list, set a key, add  *)
+(* a property).  Ref: every call returns a FRESH object holding F(x, m) --    *)
+(* what a caller sees through the handle h depends only on the input and the  *)
+(* configuration of the call that produced h and on the mutations applied     *)
+(* through h itself.  Nothing else of the history is visible: not the         *)
+(* mutations other callers made, not what was computed under another          *)
+(* configuration.                                                             *)
 (*                                                                            *)
-(* Memo = TRUE is the classic way to break this while every single-shot test  *)
-(* still passes: a cache in front of f that hands out ONE shared object per   *)
-(* input (functools.lru_cache over a function returning a list or dict, a     *)
-(* memoised parse).  TLC refutes Independence on that variant; the harness    *)
-(* uses the refutation as a vacuity guard and replays every behaviour of the  *)
-(* Memo = FALSE model into the real functions.                                *)
+(* Memo names the classic ways to break this while every single-shot test     *)
+(* still passes: a cache in front of f (functools.lru_cache, a class-level    *)
+(* dict) that hands out ONE shared object per input                           *)
+(*   "shared"   keyed by (f, x, m): aliasing only;                            *)
+(*   "stale"    keyed by (f, x), forgetting the configuration: a result       *)
+(*              computed under the other provider is returned.                *)
+(* TLC refutes Independence on both; the harness uses the refutations as      *)
+(* vacuity guards and replays every behaviour of the Memo = "none" model into *)
+(* the real functions.                                                        *)
 EXTENDS Naturals, Sequences, FiniteSets, TLC
 
 CONSTANTS Funs,        \* names of the functions under test
           Inputs,      \* abstract inputs
+          Modes,       \* configurations (1 = zoneinfo, 2 = pytz); a singleton for configuration-free functions
           MaxCalls, MaxOps,
-          Memo         \* BOOLEAN: model the shared-object cache
+          Memo         \* "none" | "shared" | "stale"
 
-VARIABLES origin,      \* origin[h] = <<f, x>> : the call that produced handle h
+VARIABLES mode,        \* current configuration
+          origin,      \* origin[h] = <<f, x, m>> : the call that produced handle h
           obj,         \* obj[h]    = identity of the object behind handle h
+          content,     \* content[o] = <<x, m>> the object was computed from
           dirty,       \* identities of the objects that were mutated
           hist         \* the operations so far
-vars == <<origin, obj, dirty, hist>>
+vars == <<mode, origin, obj, content, dirty, hist>>
 
 N == Len(origin)
-Init == origin = <<>> /\ obj = <<>> /\ dirty = {} /\ hist = <<>>
+Init == mode = 1 /\ origin = <<>> /\ obj = <<>> /\ content = <<>> /\ dirty = {} /\ hist = <<>>
 
-Cached(f, x) == {h \in 1..N : origin[h] = <<f, x>>}
-NewObj(f, x) == IF Memo /\ Cached(f, x) # {} THEN obj[CHOOSE h \in Cached(f, x) : TRUE] ELSE N + 1
+Key(f, x, m) == IF Memo = "stale" THEN <<f, x, 0>> ELSE <<f, x, m>>
+Cached(f, x, m) == {h \in 1..N : Key(origin[h][1], origin[h][2], origin[h][3]) = Key(f, x, m)}
+Hit(f, x, m) == Memo # "none" /\ Cached(f, x, m) # {}
 
 Call(f, x) ==
     /\ N < MaxCalls /\ Len(hist) < MaxOps
-    /\ origin' = Append(origin, <<f, x>>)
-    /\ obj' = Append(obj, NewObj(f, x))
-    /\ hist' = Append(hist, [op |-> "call", f |-> f, x |-> x, h |-> N + 1])
-    /\ UNCHANGED dirty
+    /\ origin' = Append(origin, <<f, x, mode>>)
+    /\ IF Hit(f, x, mode)
+       THEN /\ obj' = Append(obj, obj[CHOOSE h \in Cached(f, x, mode) : TRUE])
+            /\ UNCHANGED content
+       ELSE /\ obj' = Append(obj, Len(content) + 1)
+            /\ content' = Append(content, <<x, mode>>)
+    /\ hist' = Append(hist, [op |-> "call", f |-> f, x |-> x, h |-> N + 1, m |-> mode])
+    /\ UNCHANGED <<dirty, mode>>
 
 Mutate(h) ==
     /\ Len(hist) < MaxOps
     /\ ~\E i \in 1..Len(hist) : hist[i].op = "mutate" /\ hist[i].h = h      \* once per handle
     /\ dirty' = dirty \cup {obj[h]}
-    /\ hist' = Append(hist, [op |-> "mutate", f |-> origin[h][1], x |-> origin[h][2], h |-> h])
-    /\ UNCHANGED <<origin, obj>>
+    /\ hist' = Append(hist, [op |-> "mutate", f |-> origin[h][1], x |-> origin[h][2], h |-> h, m |-> origin[h][3]])
+    /\ UNCHANGED <<origin, obj, content, mode>>
 
-Next == (\E f \in Funs, x \in Inputs : Call(f, x)) \/ (\E h \in 1..N : Mutate(h))
+Switch(m) ==
+    /\ m # mode /\ Len(hist) < MaxOps
+    /\ hist # <<>> /\ hist[Len(hist)].op # "switch"
+    /\ mode' = m
+    /\ hist' = Append(hist, [op |-> "switch", f |-> "", x |-> 0, h |-> 0, m |-> m])
+    /\ UNCHANGED <<origin, obj, content, dirty>>
+
+Next == \/ \E f \in Funs, x \in Inputs : Call(f, x)
+        \/ \E h \in 1..N : Mutate(h)
+        \/ \E m \in Modes : Switch(m)
 Spec == Init /\ [][Next]_vars
 
 \* what the caller sees through h, and what it must see
-Seen(h) == IF obj[h] \in dirty THEN "mutated" ELSE "pristine"
+Seen(h) == [val |-> content[obj[h]], state |-> IF obj[h] \in dirty THEN "mutated" ELSE "pristine"]
 MutatedThrough(h) == \E i \in 1..Len(hist) : hist[i].op = "mutate" /\ hist[i].h = h
-Expected(h) == IF MutatedThrough(h) THEN "mutated" ELSE "pristine"
+Expected(h) == [val |-> <<origin[h][2], origin[h][3]>>, state |-> IF MutatedThrough(h) THEN "mutated" ELSE "pristine"]
 Independence == \A h \in 1..N : Seen(h) = Expected(h)
 
 \* a fresh call never returns an object somebody already holds
